@@ -213,7 +213,10 @@ ocp.set_der(v, a)
                 [tau,B] = eval_on_knots(self.xi,dmax-i,subsamples=refine-1)
                 self.B[refine][self.N+d] = B
                 self.tau[refine] = tau
-        self.time[refine] = self.time_grid(self.t0, self.T, self.N*refine)
+        # The refined points subdivide each control interval linearly (as eval_on_knots does),
+        # which differs from a time grid with N*refine intervals unless the grid is uniform
+        [tau,_] = eval_on_knots(self.xi,0,subsamples=refine-1)
+        self.time[refine] = self.t0 + tau*self.T
 
         # Evaluate spline on the control grid
         for L,chains in self.groups.items():
